@@ -45,6 +45,9 @@ fn invariant(sm: &SourceMap, stage: &str) -> Result<Vec<(u32, u32)>, String> {
         if let Some(i) = pos.windows(2).position(|w| w[0] > w[1]) {
             return Err(format!("{stage}: generated positions decrease at index {i}: {:?} then {:?}", pos[i], pos[i + 1]));
         }
+        // the i-th iterated token is the same however the iterator is driven
+        let raws: Vec<sourcemap::RawToken> = toks.iter().map(|t| t.get_raw_token()).collect();
+        super::common::iter_conformance(&format!("{stage}: tokens()"), || sm.tokens().map(|t| t.get_raw_token()), &raws)?;
         Ok(pos)
     });
     match r {
